@@ -8,8 +8,8 @@ VERIF = os.path.dirname(os.path.dirname(os.path.abspath(__file__)))
 
 # property -> (technique, what the level means here, design ref)
 CLAIMS = {
- "C01": ("enum exhaustiveness of the opcode/condition switches, emitter/VM negated-opcode agreement, per-kind width agreement of conversions in arithmetic handlers (typed AST)", "structural necessary conditions of gc-equivalence: every opcode/condition the emitter can produce has a VM handler, and each sized-kind clause truncates with its own type", "§5 C01"),
- "C02": ("typed-AST table checks with go/constant: representability bounds per kind, sibling operator coverage of the constant implementations, fast-path fallback presence", "necessary conditions of exact constant arithmetic (bounds and operator tables), not the numeric results", "§5 C02"),
+ "C01": ("enum exhaustiveness of the opcode/condition switches, emitter/VM negated-opcode agreement, per-kind width agreement of conversions in arithmetic handlers, break-scope save/restore, boundary side of unicode.MaxRune comparisons, copy-helper must-pass-through for range element stores (typed AST)", "structural necessary conditions of gc-equivalence: every opcode/condition the emitter can produce has a VM handler, and each sized-kind clause truncates with its own type", "§5 C01"),
+ "C02": ("typed-AST table checks with go/constant: representability bounds per kind, sibling operator coverage of the constant implementations, fast-path fallback presence, value-narrowing dataflow between representations, guard walk of the representability check after constant operations", "necessary conditions of exact constant arithmetic (bounds and operator tables), not the numeric results", "§5 C02"),
  "C03": ("types.Implements set equality for build-error types, panic-argument typing and recover/convert discipline on go/cfg", "decides only the clause 'a rejection is a *BuildError': every error type that can leave the compiler is wrapped", "§5 C03"),
  "C04": ("go/cfg pairing of lexer goroutine start/stop, bounded-lookahead index guard analysis of the lexer (must-dataflow of linear facts), keyed-array exhaustiveness of the disassembler tables", "necessary conditions: no index fault on the unprotected lexer goroutine for the analysed sites, goroutine always stopped, disassembler tables total", "§5 C04"),
  "C05": ("call-graph containment of the interpreter loop under the recovering frame, nil-window analysis of vm.fn, index-guard analysis of renderer/escapers, context dispatch exhaustiveness", "necessary conditions of 'no host panic': containment, recovery path free of nil dereference, guarded indexing in the renderer", "§5 C05"),
